@@ -354,7 +354,13 @@ func (rt *faultRT) RoundTrip(req *http.Request) (*http.Response, error) {
 	if f["status"] {
 		codes := []int{300, 304, 400, 401, 403, 404, 408, 409, 413, 429, 500, 502, 503, 504}
 		status = codes[rng.Intn(len(codes))]
-		switch rng.Intn(3) {
+		// the body of an error status: the server's own, a proxy's text, or none -- unless a
+		// size / encoding fault of the same turn already decided what the body is
+		flavour := rng.Intn(3)
+		if f["enc_wrong"] || f["oversize_dec"] || f["oversize_enc"] || f["enc_unknown"] {
+			flavour = 2
+		}
+		switch flavour {
 		case 0:
 			body = []byte("upstream connect error or disconnect/reset before headers")
 			hdr.Set("Content-Type", "text/plain")
@@ -362,12 +368,10 @@ func (rt *faultRT) RoundTrip(req *http.Request) (*http.Response, error) {
 			hdr.Del("X-VGI-Content-Encoding")
 			contentLength = int64(len(body))
 		case 1:
-			if !f["enc_wrong"] && !f["oversize_dec"] && !f["oversize_enc"] && !f["enc_unknown"] {
-				body = nil
-				hdr.Del("Content-Encoding")
-				hdr.Del("X-VGI-Content-Encoding")
-				contentLength = 0
-			}
+			body = nil
+			hdr.Del("Content-Encoding")
+			hdr.Del("X-VGI-Content-Encoding")
+			contentLength = 0
 		}
 	}
 	var rbody io.ReadCloser = io.NopCloser(bytes.NewReader(body))
